@@ -570,6 +570,12 @@ func main() {
 	conc([]string{A, AN}, []string{"ChangeActiveMode(x)", "DeleteMode(y,allowMissing=false)"}, []string{"ChangeToNormalMode"})
 	conc([]string{A}, []string{"DeleteMode(x,allowMissing=false)"}, []string{"ChangeActiveMode(x)"}, []string{"AddMode(x,normal=true)"})
 	conc([]string{A}, []string{"UpdateMode(x,normal=true)"}, []string{"AddMode(y,normal=true)"}, []string{"CreateMode(normal=true)"})
+	// two callers each promoting another mode while none is normal: the check "is there a normal mode already" and the
+	// write belong together for updates as they do for creation
+	B := "AddMode(y,normal=false)"
+	conc([]string{A, B}, []string{"UpdateMode(x,normal=true)"}, []string{"UpdateMode(y,normal=true)"})
+	conc([]string{A, B}, []string{"srv.UpdateMode(x,normal=true)"}, []string{"srv.UpdateMode(y,mask(normal)=true)"})
+	conc([]string{A, B}, []string{"UpdateMode(x,normal=true)"}, []string{"UpdateMode(y,normal=true)"}, []string{"CreateMode(normal=true)"})
 	// through the servers: the clear must pick the normal mode atomically with switching to it
 	conc([]string{A, AN}, []string{"srv.ClearActiveMode"}, []string{"srv.UpdateMode(y,normal=false)"})
 	conc([]string{A, AN}, []string{"srv.ClearActiveMode"}, []string{"srv.UpdateMode(y,normal=false)", "srv.UpdateMode(x,normal=true)"})
